@@ -64,7 +64,7 @@ def run_case(ctx, g, rng):
         a1 = call(c.parse_uri, q, return_none=True)
         a2 = call(c.compress, q)
         a3 = call(c.is_uri, q)
-        answers[q] = repr((a1, a2, a3))
+        answers[q] = probe.okey((a1, a2, a3))
         k = qclass(sp, q, allu)
         probe.note_key(f"{shape}:{k}:{how}:{'d' if d != ':' else ':'}", nontrivial=k is not None)
     probe.S.counters["wl:converters"] += 1
@@ -92,7 +92,7 @@ def run_case(ctx, g, rng):
                         c2.add_record(gen.mk_record(api, r))
                 probe.S.counters["wl:permutation-builds"] += 1
                 for q in bqs:
-                    a = repr((call(c2.parse_uri, q, return_none=True), call(c2.compress, q), call(c2.is_uri, q)))
+                    a = probe.okey((call(c2.parse_uri, q, return_none=True), call(c2.compress, q), call(c2.is_uri, q)))
                     probe.evaluated("order-independence")
                     if a != answers[q]:
                         violation(["C01"], "order-independence", "answer-depends-on-record-order",
@@ -142,7 +142,7 @@ def run_case(ctx, g, rng):
             seen_prefixes.add(r.prefix)
             probe.S.counters["wl:history-steps"] += 1
         for q in hq:
-            a = repr((call(c3.parse_uri, q, return_none=True), call(c3.compress, q), call(c3.is_uri, q)))
+            a = probe.okey((call(c3.parse_uri, q, return_none=True), call(c3.compress, q), call(c3.is_uri, q)))
             probe.evaluated("order-independence")
             if spec.is_unique(spec.snapshot(c3)) and sorted(map(spec.norm, spec.snapshot(c3)), key=repr) == sorted(map(spec.norm, recs), key=repr) and a != answers[q]:
                 violation(["C01"], "order-independence", "answer-depends-on-queries-made-before-registration",
